@@ -332,3 +332,67 @@ Proof.
     destruct E1 as [_ E1], E2 as [_ E2]. inversion E1; inversion E2; subst. cbn [render_kname]. now rewrite K.
 Qed.
 End Render.
+
+(* ------------------------------------------------------------------ the proposed repair (inline expansion) *)
+Definition iwalk_ok (i : item) : Prop :=
+  forall kc kc', qli_item i kc = Some kc' ->
+    kc' = kc ++ flat_map calls_list (expand_item i) /\ Forall (fun l => leaf_calls l <> None) (expand_item i).
+
+Lemma iofold_walk body : Forall iwalk_ok body ->
+  forall kc kc', ofold qli_item body kc = Some kc' ->
+    kc' = kc ++ flat_map calls_list (expand body) /\ Forall (fun l => leaf_calls l <> None) (expand body).
+Proof.
+  induction 1 as [|x r Hx _ IH]; intros kc kc'; simpl.
+  - intros [= <-]. rewrite app_nil_r. split; [reflexivity | constructor].
+  - destruct (qli_item x kc) as [k1|] eqn:E1; [|discriminate]. intros E2.
+    destruct (Hx _ _ E1) as [R1 O1]. destruct (IH _ _ E2) as [R2 O2]. split.
+    + rewrite R2, R1. unfold expand. simpl. now rewrite flat_map_app, app_assoc.
+    + unfold expand in *. simpl. apply Forall_app. split; assumption.
+Qed.
+
+Lemma iwalk_item i : iwalk_ok i.
+Proof.
+  induction i as [l | reps body IH] using item_ind'; intros kc kc'; simpl.
+  - unfold calls_list. destruct (leaf_calls l) as [cs|] eqn:E; [|discriminate]. intros [= <-].
+    rewrite app_nil_r. split; [reflexivity | constructor; [congruence | constructor]].
+  - pose proof (iofold_walk body IH) as W. unfold expand in W. rewrite flat_map_rep_list.
+    generalize (Z.to_nat reps). intros n. revert kc kc'. induction n as [|n IHn]; intros kc kc'; simpl.
+    + intros [= <-]. rewrite app_nil_r. split; [reflexivity | constructor].
+    + destruct (ofold qli_item body kc) as [k1|] eqn:E1; [|discriminate]. intros E2.
+      destruct (W _ _ E1) as [R1 O1]. destruct (IHn _ _ E2) as [R2 O2]. split.
+      * rewrite R2, R1. now rewrite app_assoc.
+      * apply Forall_app. split; assumption.
+Qed.
+
+Theorem openql_patched_in_order t cid p : ql_wf_tree t = true -> qli_export t cid = Some p ->
+  executed p = ql_image t /\ p = (spec_pname t cid, [QKernel (spec_kname t) (ql_image t)]).
+Proof.
+  intros W. unfold qli_export. destruct (ofold qli_item t []) as [kc|] eqn:E; [|discriminate]. intros [= <-].
+  assert (A : Forall iwalk_ok t) by (apply Forall_forall; intros i _; apply iwalk_item).
+  destruct (iofold_walk t A _ _ E) as [R O]. simpl in R. subst kc.
+  rewrite (wf_calls_image _ (wf_tree_expand t W) O). fold (ql_image t). split.
+  - unfold executed. simpl. now rewrite app_nil_r.
+  - unfold spec_pname, spec_kname, base_of, key. destruct cid; reflexivity.
+Qed.
+
+Example patched_on_witness :
+  option_map executed (qli_export f7_witness None) = Some [QGate "x180" [0]; QGate "y90" [0]; QGate "x90" [0]].
+Proof. vm_compute. reflexivity. Qed.
+
+(* ------------------------------------------------------------------ non-vacuity of C15_partial and of the name theorems *)
+Definition flat_example : list item :=
+  [Leaf (MkLeaf K_Rx180 [0] []); Leaf (MkLeaf K_CPhase [0; 1] []); Leaf (MkLeaf K_Wait [1] [Some 12]);
+   Leaf (MkLeaf K_VirtualPhase [0] []); Leaf (MkLeaf K_Barrier [0; 1; 1] []); Leaf (MkLeaf K_DispersiveMeasure [0] [])].
+
+Example partial_nonvacuous :
+  has_block flat_example = false /\ ql_wf_tree flat_example = true /\
+  option_map executed (ql_export flat_example (Some "id"))
+  = Some [QGate "x180" [0]; QCz 0 1; QBarrier [0; 1]; QGate "update_ph" [0]; QGate "update_ph" [1]; QWait [1] 3;
+          QBarrier [0; 1]; QGate "measure" [0]].
+Proof. repeat split; vm_compute; reflexivity. Qed.
+
+Example names_nonvacuous :
+  let t1 := [Leaf (MkLeaf K_Rx180 [0] []); Block 2 [Leaf (MkLeaf K_Ry90 [0] [])]] in
+  let t2 := [Leaf (MkLeaf K_Rx180 [3] []); Block 2 [Leaf (MkLeaf K_Ry90 [1] [])]] in
+  kinds_tree t1 = kinds_tree t2 /\ ql_export t1 None <> None /\ ql_export t2 None <> None /\ t1 <> t2.
+Proof. cbn. repeat split; discriminate. Qed.
